@@ -362,10 +362,9 @@ def translate(names=None):
     """Regenerate the requested Gen files (all by default).  Returns {name: report}.
     Files are only rewritten when their content changes so that `lake build` stays a no-op."""
     # late imports: optional generators living in their own modules register themselves
-    try:
-        from . import translate_schema  # noqa: F401
-    except ImportError:
-        pass
+    import importlib
+    for f in sorted(Path(__file__).parent.glob("translate_*.py")):
+        importlib.import_module(f"verifpy.{f.stem}")
     src = core.REPO / "src" / "chuk_mcp"
     out = {}
     gen_dir = core.LEAN / "Verif" / "Gen"
